@@ -15,7 +15,7 @@ RULE = ("x/y, x//y, x%y of real operands vs exact Fraction arithmetic: '/' has n
         "Hypothesis - random format pairs with result word <=53 biased to the extreme quotient (most negative / +-1 LSB) and negative inexact quotients. "
         "Non-trivial = quotient not representable in the result format, or negative; distinct = distinct (formats, codes, op, method, rounding).")
 ASSUMPTIONS = ['operands created from raw codes; divisor != 0', 'format pairs whose documented optimal word is < 1 are rejected by the library (ValueError) and are outside the generator']
-EXHAUSTIVE = True
+EXHAUSTIVE = False    # the whole quantifier is not enumerated; complete sub-domains are listed in EXHAUSTIVE_SUBDOMAINS
 EXHAUSTIVE_SUBDOMAINS = {'quick': ['all format pairs n_word<=4 x all code pairs (divisor!=0) x {/,//,%} x 3 roundings, raw; repr for n_word<=3'],
                          'thorough': ['all format pairs n_word<=5 x all code pairs x 3 ops x 3 roundings x raw; repr for n_word<=4']}
 REQUIRED_CLASSES = {'inexact-quotient': 1000, 'negative-quotient': 1000, 'extreme-quotient': 50}
